@@ -33,7 +33,7 @@ impl Check for VaultSharePrice {
             .boxed()
     }
     fn cases(&self, tier: Tier) -> u32 {
-        tier.pick(30_000, 2_000_000)
+        tier.pick(30_000, 1_200_000)
     }
     fn min_nontrivial(&self) -> f64 {
         0.02
